@@ -11,6 +11,8 @@ Driver for C19 (response sink).  Case lines (after the index):
     there is one worker, sorted when there are several (the real threads interleave as they like).
   A <existing> <format> <rate> <persist 0|1> <workers> <inputErrors: n resp…>     (CompassApp::run end to end)
       → `ok <hex canonical file> <number of responses handed back>`
+  P <hex text>                   (reader: `SinkRead.parse` vs `serde_json::from_str`)
+      → `ok <enc value, number bits 0>` | `fail`
   X <k formats…> <response>      (a Combined sink of k file sinks, one response)
       → `ok <k hex rows…> P <enc response after>` | `panic` | `lock`
 
@@ -20,6 +22,7 @@ Driver for C19 (response sink).  Case lines (after the index):
 import Compass.Drv.Proto
 import Compass.Drv.JsonProto
 import Compass.Model.Sink
+import Compass.Model.SinkRead
 
 namespace Compass.Drv.C19
 open Compass Compass.Proto Compass.Sink
@@ -230,6 +233,12 @@ def caseP : P String := do
     | .ok sink =>
       let (sink', returned) := appRun floatOps persist sink workers inputErrors (sequentialSchedule workers)
       pure s!"ok {hexOfText (canonFile sink' (workers.length > 1))} {returned.length}"
+  | "P" => do
+    -- the reader of Model/SinkRead.lean against serde_json::from_str on one line of text
+    let line ← JsonProto.str
+    match SinkRead.parse line.toList with
+    | some j => pure ("ok " ++ JsonProto.enc j)
+    | none => pure "fail"
   | "X" => do
     let fs ← listOf format
     let r ← JsonProto.json
